@@ -518,6 +518,15 @@ func runRecycle(w *tracelog.Writer, seed int64, rounds int, trafficMB int) error
 			}
 			next++
 		}
+		// a few values of a mebibyte and more (a read path that treats large values differently)
+		bigs := []int{}
+		for i := 0; i < 3; i++ {
+			if err := cs.Put(nil, mkid(next), mkVal(rng, 1<<20+rng.Intn(1<<19))); err != nil {
+				return err
+			}
+			bigs = append(bigs, next)
+			next++
+		}
 		if r%2 == 0 {
 			db.Flush()
 		}
@@ -525,6 +534,15 @@ func runRecycle(w *tracelog.Writer, seed int64, rounds int, trafficMB int) error
 			v, err := cs.Get(nil, mkid(base+i))
 			if err == nil {
 				h.add(v)
+			}
+		}
+		for _, b := range bigs {
+			if v, err := cs.Get(nil, mkid(b)); err == nil {
+				h.add(v)
+			}
+			// the same id is written again with other bytes of the same size class: the slice handed out must not follow
+			if err := cs.Put(nil, mkid(b), mkVal(rng, 1<<20+rng.Intn(1<<19))); err != nil {
+				return err
 			}
 		}
 		// unrelated traffic
